@@ -2,10 +2,11 @@
 """Print the prompt for a seeding sub-agent: only the property text + its scratch worktree."""
 import json, sys
 pid = sys.argv[1]
-wt = f'/tmp/seed-{pid}'
+rnd = sys.argv[2] if len(sys.argv) > 2 else ''
+wt = f'/tmp/seed{rnd}-{pid}'
 p = next(json.loads(l) for l in open('/verif/properties.jsonl') if json.loads(l)['id'] == pid)
 anch = p.get('anchors', {})
-print(f"""You have your own scratch git worktree of the Rust project Enet4/dicom-rs (a pure-Rust DICOM library and tools) at {wt}. Do ALL your work inside {wt}; never read or write /repo or /verif (they are off limits), and do not look for other people's verification material. The sandbox has no network; use `--offline` with cargo.
+TEXT = (f"""You have your own scratch git worktree of the Rust project Enet4/dicom-rs (a pure-Rust DICOM library and tools) at {wt}. Do ALL your work inside {wt}; never read or write /repo or /verif (they are off limits), and do not look for other people's verification material. The sandbox has no network; use `--offline` with cargo.
 
 Here is a semantic property that the code base is supposed to satisfy:
 
@@ -29,3 +30,7 @@ DELIVERABLES, all under {wt}/out/ :
 - seed_demo.rs : the demonstration test, plus in notes.md the crate it belongs to and the exact command to run it;
 - notes.md : what the change is, which part of the property statement it breaks, what exactly is needed for it to manifest, the smallest failing input/sequence you know, and the commands you ran with their results (suite summary line, demo pass/fail).
 Leave the worktree with your change applied and the demo in place. Your final message: a 5-line summary (change, manifestation condition, demo crate+command, suite result).""")
+EXTRA = " IMPORTANT: someone else has already made a first, straightforward change of this kind for this property. Yours must be DIFFERENT in kind: avoid the single most obvious site; prefer a different mechanism, file or entry point among those listed (a less-used entry point or option, state carried across successive calls, an interaction between two components, a rarely taken branch, a different configuration / feature / transfer syntax / strategy), so that a checker tuned to the obvious failure would still miss it."
+MARK = "touch only non-test source files."
+assert MARK in TEXT
+print(TEXT.replace(MARK, MARK + EXTRA) if rnd else TEXT)
